@@ -174,7 +174,9 @@ func newStructDesc(t reflect.Type) (*structDesc, error) {
 	d.initFunc, d.hasInitFunc = eface.(iInitDefault)
 
 	f, ok := t.FieldByName("_unknownFields")
-	if ok && f.Type.Kind() == reflect.Slice && f.Type.Elem().Kind() == reflect.Uint8 {
+	// len(f.Index) == 1: a field promoted from an embedded struct doesn't count,
+	// embedded fields are ignored and f.Offset would be relative to the embedded struct
+	if ok && len(f.Index) == 1 && f.Type.Kind() == reflect.Slice && f.Type.Elem().Kind() == reflect.Uint8 {
 		d.hasUnknownFields = true
 		d.unknownFieldsOffset = f.Offset
 	}
